@@ -107,6 +107,9 @@ def main(argv=None):
         for s in shards:
             results.append(_worker((pid, s)))
     else:
+        import gc
+        gc.collect()
+        gc.freeze()          # keep the forked workers from touching the parent's copy-on-write heap
         ctx = mp.get_context('fork')
         with ctx.Pool(jobs, maxtasksperchild=getattr(mod, 'MAXTASKS', None)) as pool:
             for r in pool.imap_unordered(_worker, [(pid, s) for s in shards], chunksize=1):
